@@ -13,7 +13,7 @@ _MM = re.compile(r'<<(\d+), (\d+), (\d+), (\d+), (\d+), (\d+), \\"(\w+)\\", \\"(
 
 def run_suite(suite, timeout=7200, workers=None, xmx="16g"):
     cfg = os.path.join(vlib.SPEC, "mc", "MC_Isa_%s.cfg" % suite)
-    r = vlib.tlc(MC, cfg, timeout=timeout, extra=["-continue"], name="isa-" + suite, workers=workers, xmx=xmx)
+    r = vlib.tlc(MC, cfg, timeout=timeout, extra=["-continue", "-maxSetSize", "3000000"], name="isa-" + suite, workers=workers, xmx=xmx)
     sem, cost = [], []
     for line in r.out.splitlines():
         if '"MISMATCH"' not in line:
